@@ -43,6 +43,7 @@ type wrapReader struct {
 	pFrom, pTo int
 	lastErr    error
 	eof        bool
+	stall      int
 }
 
 func (r *wrapReader) Read(p []byte) (n int, err error) {
@@ -62,10 +63,22 @@ func (r *wrapReader) Read(p []byte) (n int, err error) {
 		r.faults++
 		return 0, ErrInjected
 	}
+	if r.stall > 0 {
+		r.stall--
+		return 0, nil
+	}
 	st := RStep{N: len(p)}
 	if r.step < len(r.steps) {
 		st = r.steps[r.step]
 		r.step++
+	}
+	if st.Err == 3 {
+		// a reader that has nothing for st.N calls in a row
+		if _, ok := r.fault[idx]; !ok && len(p) > 0 {
+			r.stall = st.N - 1
+			return 0, nil
+		}
+		st = RStep{N: 0}
 	}
 	if f, ok := r.fault[idx]; ok {
 		st.Err = 2
@@ -163,6 +176,10 @@ func genChunking(r *rand.Rand, style int, n int) []RStep {
 		for s := 0; s < n; {
 			if r.Intn(3) == 0 {
 				steps = append(steps, RStep{N: 0})
+				if r.Intn(25) == 0 {
+					// nothing for 100-300 calls in a row
+					steps = append(steps, RStep{N: 100 + r.Intn(200), Err: 3})
+				}
 				continue
 			}
 			k := 1 + r.Intn(30)
@@ -412,14 +429,17 @@ func driveWrap(wp *lz.WrappedParser, cc *C08Case, r io.Reader, rd *wrapReader, s
 	plain := r != io.Reader(rd)
 	// (every planned failure of the reader may cost one Parse call and one
 	// reader call more)
-	planned := len(rd.fault)
+	planned, stalls := len(rd.fault), 0
 	for _, s := range rd.steps {
 		if s.Err == 2 {
 			planned++
 		}
+		if s.Err == 3 {
+			stalls += s.N
+		}
 	}
 	maxCalls := len(rd.data) + 600 + 16 + 2*planned
-	maxReads := 64 + 8*len(rd.data) + 700 + 2*len(rd.steps)
+	maxReads := 64 + 8*len(rd.data) + 700 + 2*len(rd.steps) + stalls
 	errorsSeen := 0
 	// one block value for the whole stream, as a caller reuses it; its whole
 	// capacity is overwritten before every call (memory handed out by the
